@@ -53,6 +53,9 @@ func GenCases(c *Ctx, n int, depth int, modes []Mode, tweak func(*G)) []*Case {
 			t = []string{"int", "float"}[c.Rng.Intn(2)]
 		}
 		src := g.Expr(t, 1+c.Rng.Intn(depth))
+		if i%10 == 7 && m.Cast == "" {
+			src = g.ConstSoup() // constant-pool stress (see gen.go)
+		}
 		env := NewEnv(i, func(k int) int { return c.Rng.Intn(k) })
 		out = append(out, &Case{Src: src, Mode: m, Env: env})
 	}
